@@ -15,7 +15,7 @@ from .. import engine, common
 ID = "C04"
 FLAVS = ["full", "bare", "notsync"]
 FORMS = ["inline", "where", "impl", "split", "dup"]
-MOCKS = ["none", "mockall", "mockall_false", "api_only", "unimock", "unimock_false"]
+MOCKS = ["none", "mockall", "mockall_false", "api_only", "unimock", "unimock_false", "mockall_unimock_false", "api_mockall_false"]
 # two of the three bounds are instantiations of ONE generic trait: a bound is its whole path, generic arguments included
 BN = ["B0", "G<u8>", "G<u16>"]
 
@@ -67,7 +67,9 @@ def fn_src(name, mask, form, byval, vis="pub ", asy=False):
 
 def attr(mock, maybe_send=False):
     a = {"none": "", "mockall": ", mockall", "mockall_false": ", mockall = false", "api_only": ", mock_api = TrMock",
-         "unimock": ", mock_api = TrMock, unimock", "unimock_false": ", mock_api = TrMock, unimock = false"}[mock]
+         "unimock": ", mock_api = TrMock, unimock", "unimock_false": ", mock_api = TrMock, unimock = false",
+         # one framework switched off explicitly must not cancel the other
+         "mockall_unimock_false": ", unimock = false, mockall", "api_mockall_false": ", mock_api = TrMock, mockall = false"}[mock]
     return "#[::entrait::entrait(pub Tr%s%s)]" % (a, ", ?Send" if maybe_send else "")
 
 
@@ -97,8 +99,10 @@ def enumerate_states(tier):
 
 def mockable(s):
     m = s["mock"]
-    if m == "mockall":
+    if m in ("mockall", "mockall_unimock_false"):
         return True
+    if m == "api_mockall_false":
+        return s["feature"]      # mockall is off, unimock comes from the crate feature
     if m == "unimock":
         return True
     if m == "api_only":
